@@ -186,6 +186,18 @@ def check_reserve_algebra(ctx, R):
             fail('order', 'expected exactly one emission after the reservation')
         elif snf(r.emits[0][0]) != 'x' or snf(r.emits[0][1]) != 'metadata':
             fail('order', 'the element is not emitted unchanged with its metadata')
+    # the reservation is never taken back: no write of the field in an exception handler / finally block of the class
+    if f:
+        for mname, m_ in cls.methods.items():
+            for t_ in own_nodes(m_.node):
+                if isinstance(t_, ast.Try):
+                    for blk in [h.body for h in t_.handlers] + [t_.finalbody]:
+                        for x in blk:
+                            for y in ast.walk(x):
+                                if isinstance(y, (ast.Assign, ast.AugAssign)) and any(
+                                        self_field(tt) == f for tt in (y.targets if isinstance(y, ast.Assign) else [y.target])):
+                                    fail('single-store', 'self.%s is written again in an exception handler / finally block (line %d): '
+                                         'a slot handed back is a slot another waiting element already owns' % (f, y.lineno))
     for tok in ('single-store', 'new-reservation', 'sleep', 'order'):
         R.ob('RESERVE-ALGEBRA', con, tok, tok not in bad, bad.get(tok, ''), ctx.where(fn, fn.node.lineno), None, len(paths))
     # initial reservation lies in the past (an idle line passes at once)
@@ -294,6 +306,14 @@ def check_split_carry(ctx, R):
                      % src(st[-1][0])[:80])
         elif st and nf(st[-1][0]) != B0:
             fail('carry-written-once-before-suspension', 'the carried buffer is changed although nothing was read')
+    # the read position is only moved when the source is constructed: a seek on (re)start skips what was appended meanwhile
+    seeks = [(m_, x) for mname, m_ in cls.methods.items() if mname != '__init__' for x in own_nodes(m_.node)
+             if isinstance(x, ast.Call) and isinstance(x.func, ast.Attribute) and x.func.attr in ('seek', 'truncate')
+             and self_field(x.func.value) is not None]
+    R.ob('SPLIT-CARRY', con, 'position-moved-only-at-construction', not seeks,
+         'the file position is moved outside __init__ (%s): records appended while the source was stopped are skipped, and a '
+         'held-back tail is glued to later data' % ', '.join('%s line %d' % (m_.qual, x.lineno) for m_, x in seeks),
+         ctx.where(seeks[0][0], seeks[0][1].lineno) if seeks else ctx.where(fn, fn.node.lineno))
     for tok in ('split-receiver', 'carry-is-last-piece', 'emit-each-piece-once-in-order', 'carry-written-once-before-suspension'):
         R.ob('SPLIT-CARRY', con, tok, tok not in bad, bad.get(tok, ''), ctx.where(fn, fn.node.lineno), None, len(paths))
     R.ob('SPLIT-CARRY', con, 'single-carry', True)
